@@ -28,7 +28,7 @@ def affine(expr: ast.expr, lenvars: dict[str, str]) -> Optional[dict]:
     if isinstance(expr, ast.Call) and isinstance(expr.func, ast.Name) and expr.func.id == "len":
         return {"N": 1, "_len_arg": ast.unparse(expr.args[0])}
     if isinstance(expr, ast.Name) and expr.id in lenvars:
-        return affine(ast.parse(lenvars[expr.id], mode="eval").body, {})
+        return affine(ast.parse(lenvars[expr.id], mode="eval").body, {k: v for k, v in lenvars.items() if k != expr.id})
     if isinstance(expr, ast.BinOp) and isinstance(expr.op, (ast.Add, ast.Sub)):
         a, b = affine(expr.left, lenvars), affine(expr.right, lenvars)
         if a is None or b is None:
@@ -45,42 +45,67 @@ def affine(expr: ast.expr, lenvars: dict[str, str]) -> Optional[dict]:
 
 
 def writeback_conservation(run: Run, model: PyModel, rid: str) -> None:
-    """_update_zo_file: lines[:s] + X + lines[e:], X = lines[s:e] with only X[0] replaced; s = line_no-1; e-s = body line count."""
-    fi = model.func(f"{H}._update_zo_file")
+    """_update_zo_file (helpers folded in): per note, lines[:s] + X + lines[e:] (or lines[s:e] = X, or lines[s] = f(lines[s])),
+    X = lines[s:e] with only X[0] replaced; s = line_no - 1; e - s = number of '\n'-separated body lines."""
+    from .flatten import flat_info
+
+    fi = flat_info(model, f"{H}._update_zo_file")
     fn = fi.node
-    assigns = {}
+    assigns: dict[str, list] = {}
     for n in walk_no_nested(fn):
-        if isinstance(n, ast.Assign) and len(n.targets) == 1 and isinstance(n.targets[0], ast.Name):
-            assigns.setdefault(n.targets[0].id, []).append(n.value)
-    concat = [v for vs in assigns.values() for v in vs if isinstance(v, ast.BinOp) and isinstance(v.op, ast.Add) and sum(isinstance(s, ast.Subscript) and isinstance(s.slice, ast.Slice) for s in ast.walk(v)) == 2]
-    if len(concat) != 1:
+        if isinstance(n, (ast.Assign, ast.AnnAssign)) and getattr(n, "value", None) is not None:
+            tg = n.targets if isinstance(n, ast.Assign) else [n.target]
+            if len(tg) == 1 and isinstance(tg[0], ast.Name):
+                assigns.setdefault(tg[0].id, []).append(n.value)
+    single = {k: ast.unparse(v[0]) for k, v in assigns.items() if len(v) == 1 and not isinstance(v[0], (ast.Subscript, ast.Call)) or (len(v) == 1 and isinstance(v[0], ast.Call) and ast.unparse(v[0].func) == "len")}
+
+    def aff(e: ast.expr):
+        env = dict(single)
+        for _ in range(4):  # names defined through other names
+            r = affine(e, env)
+            if r is not None:
+                return r
+        return None
+
+    site = None
+    S_expr = E_expr = None
+    lines = mid_expr = None
+    concat = [v for vs in assigns.values() for v in vs if isinstance(v, ast.BinOp) and isinstance(v.op, ast.Add) and sum(isinstance(x, ast.Subscript) and isinstance(x.slice, ast.Slice) for x in ast.walk(v)) == 2]
+    slice_stores = [n for n in walk_no_nested(fn) if isinstance(n, ast.Assign) and isinstance(n.targets[0], ast.Subscript) and isinstance(n.targets[0].slice, ast.Slice)
+                    and n.targets[0].slice.lower is not None and n.targets[0].slice.upper is not None]
+    if len(concat) == 1:
+        c = concat[0]
+        subs = [x for x in ast.walk(c) if isinstance(x, ast.Subscript) and isinstance(x.slice, ast.Slice)]
+        head = next((x for x in subs if x.slice.lower is None and x.slice.upper is not None), None)
+        tail = next((x for x in subs if x.slice.upper is None and x.slice.lower is not None), None)
+        if head is None or tail is None:
+            run.undecided(rid, "_update_zo_file", "the two slices are not lines[:s] and lines[e:]")
+            return
+        lines, S_expr, E_expr, site = base_name(head.value), head.slice.upper, tail.slice.lower, c
+        mids = [n for n in ast.walk(c) if isinstance(n, ast.Name) and n.id != lines and n.id in assigns and n is not S_expr and n is not E_expr and n.id not in (ast.unparse(S_expr), ast.unparse(E_expr))]
+        mid_expr = mids[0] if mids else None
+    elif len(slice_stores) == 1:
+        t = slice_stores[0].targets[0]
+        lines, S_expr, E_expr, site = base_name(t.value), t.slice.lower, t.slice.upper, slice_stores[0]
+        mid_expr = slice_stores[0].value if isinstance(slice_stores[0].value, ast.Name) else None
+    else:
         run.undecided(rid, "_update_zo_file", "cannot find `lines[:s] + new + lines[e:]`")
         return
-    c = concat[0]
-    subs = [s for s in ast.walk(c) if isinstance(s, ast.Subscript) and isinstance(s.slice, ast.Slice)]
-    head = next((s for s in subs if s.slice.lower is None), None)
-    tail = next((s for s in subs if s.slice.upper is None), None)
-    mids = [n for n in ast.walk(c) if isinstance(n, ast.Name) and n.id not in (base_name(head.value) if head else "",) and n.id in assigns]
-    if head is None or tail is None or not isinstance(head.slice.upper, ast.Name) or not isinstance(tail.slice.lower, ast.Name):
-        run.undecided(rid, "_update_zo_file", "slice bounds are not plain variables")
-        return
-    S, E, lines = head.slice.upper.id, tail.slice.lower.id, base_name(head.value)
-    sa = affine(assigns[S][0], {}) if len(assigns.get(S, [])) == 1 else None
-    ea = affine(assigns[E][0], {}) if len(assigns.get(E, [])) == 1 else None
+    sa, ea = aff(S_expr), aff(E_expr)
     ok_s = sa is not None and sa.get("L") == 1 and sa.get(1, 0) == -1 and not sa.get("N")
-    run.check(rid, "the splice starts at the note's line (line_no - 1)", ok_s, "_update_zo_file", f"{S} = {ast.unparse(assigns[S][0]) if S in assigns else '?'}",
-              f"`{S}` is not line_no - 1: the write-back rewrites a different line than the note's first line", file=FILE_H, node=fn)
+    run.check(rid, "the splice starts at the note's line (line_no - 1)", ok_s, "_update_zo_file", f"start = {ast.unparse(S_expr)} = {single.get(ast.unparse(S_expr), '?')}",
+              f"`{ast.unparse(S_expr)}` is not line_no - 1: the write-back rewrites a different line than the note's first line", file=FILE_H, node=fn)
     ok_e = sa is not None and ea is not None and ea.get("L") == 1 and ea.get("N") == 1 and ea.get(1, 0) - sa.get(1, 0) == 0 and "split('\\n')" in ea.get("_len_arg", "") and "body" in ea.get("_len_arg", "")
-    run.check(rid, "the splice covers exactly the note's lines (end - start = number of body lines)", ok_e, "_update_zo_file", f"{E} = {ast.unparse(assigns[E][0]) if E in assigns else '?'}",
-              f"`{E} - {S}` is not the number of '\\n'-separated lines of the note body: neighbouring lines are dropped or duplicated by the write-back", file=FILE_H, node=fn)
+    run.check(rid, "the splice covers exactly the note's lines (end - start = number of body lines)", ok_e, "_update_zo_file", f"end = {ast.unparse(E_expr)} = {single.get(ast.unparse(E_expr), '?')}",
+              f"`{ast.unparse(E_expr)} - {ast.unparse(S_expr)}` is not the number of '\\n'-separated lines of the note body: neighbouring lines are dropped or duplicated by the write-back", file=FILE_H, node=fn)
     # the middle is lines[S:E] with only element 0 replaced
-    mid_name = next((n.id for n in mids if n.id != lines), None)
+    mid_name = mid_expr.id if isinstance(mid_expr, ast.Name) else None
     mid_def = assigns.get(mid_name or "", [])
     ok_m = len(mid_def) == 1 and isinstance(mid_def[0], ast.Subscript) and base_name(mid_def[0].value) == lines and isinstance(mid_def[0].slice, ast.Slice) \
-        and ast.unparse(mid_def[0].slice.lower or ast.Constant(0)) == S and ast.unparse(mid_def[0].slice.upper or ast.Constant(0)) == E
+        and ast.unparse(mid_def[0].slice.lower or ast.Constant(0)) == ast.unparse(S_expr) and ast.unparse(mid_def[0].slice.upper or ast.Constant(0)) == ast.unparse(E_expr)
     stores = [n for n in walk_no_nested(fn) if isinstance(n, ast.Subscript) and isinstance(n.ctx, ast.Store) and base_name(n.value) == mid_name]
-    ok_i = bool(stores) and all(isinstance(s.slice, ast.Constant) and s.slice.value == 0 for s in stores)
-    run.check(rid, "only the first line of the note is rewritten", ok_m and ok_i, "_update_zo_file", f"{mid_name} stores {[ast.unparse(s) for s in stores]}",
+    ok_i = bool(stores) and all(isinstance(x.slice, ast.Constant) and x.slice.value == 0 for x in stores)
+    run.check(rid, "only the first line of the note is rewritten", ok_m and ok_i, "_update_zo_file", f"{mid_name} stores {[ast.unparse(x) for x in stores]}",
               "the replacement lines are not `lines[start:end]` with only element 0 reassigned: other lines of the note (or of its neighbours) change", file=FILE_H, node=fn)
     # split / join on "\n" exactly
     reads = [c2 for c2 in ast.walk(fn) if isinstance(c2, ast.Call) and isinstance(c2.func, ast.Attribute) and c2.func.attr in ("split", "splitlines") and "read_text" in ast.unparse(c2)]
@@ -342,43 +367,102 @@ def hash_ack(run: Run, model: PyModel, eff: Effects, rid: str) -> None:
 
 
 def stamp_table(run: Run, model: PyModel, rid: str) -> None:
-    fi = model.func(f"{H}._check_for_modified_notes")
-    fn = fi.node
-    sites = [n for n in walk_no_nested(fn) if isinstance(n, ast.If) and any(isinstance(s, ast.Assign) and ast.unparse(s.targets[0]).endswith("modify_date") for s in n.body)]
-    if len(sites) != 1:
-        run.undecided(rid, "_check_for_modified_notes", f"expected one stamping site, found {len(sites)}")
-        return
-    test = sites[0].test
+    """Abstract evaluation of _check_for_modified_notes on a generic page (two notes; the second is the control and is never
+    edited) for the 8 valuations of (had this ZID before, differs from the indexed note, already dated today) x (stamped
+    before / never stamped).  Dates are uninterpreted terms (`today` is whatever date.today() returns; other days are
+    pairwise different markers); bodies are generic strings whose blanks are irregular so that split()/join(" ") slips show."""
+    from .absbuiltins import strftime_shape
+    from .absint import Interp, Raised, State
+    from .absval import CharSet, HObj, Opaque, Ref, SeqStr, Term
 
-    def matcher(e: ast.expr):
-        if isinstance(e, ast.Name) and e.id == "old_note":
-            return ("has_old", True)
-        if isinstance(e, ast.Compare) and len(e.ops) == 1:
-            txt = ast.unparse(e)
-            if "modify_date" in txt and "today" in txt and isinstance(e.ops[0], (ast.NotEq, ast.Eq)):
-                return ("dated_today", isinstance(e.ops[0], ast.Eq))
-            if {ast.unparse(e.left), ast.unparse(e.comparators[0])} == {"note", "old_note"} and isinstance(e.ops[0], (ast.NotEq, ast.Eq)):
-                return ("changed", isinstance(e.ops[0], ast.NotEq))
-        if isinstance(e, ast.Compare) and ast.unparse(e) in ("old_note is not None",):
-            return ("has_old", True)
+    def fz(I, v, st):
+        return I.B.freeze_term(I, v, st)
+
+    def call_any(I, fv, args, kwargs, st, node):
+        if fv.cls.startswith("ext:"):
+            return [(Term(fv.cls[4:], tuple(fz(I, a, st) for a in args)), st)]
         return None
 
-    f = formula(test, matcher, single_bool_defs(fn))
-    try:
-        tt = truth_table(f, ["has_old", "changed", "dated_today"])
-    except KeyError as e:
-        run.undecided(rid, "_check_for_modified_notes", f"{e}")
-        return
-    bad = [k for k, v in tt.items() if v != (k[0] and k[1] and not k[2])]
-    run.check(rid, "a note is stamped iff it had that ZID before, differs, and is not dated today (8 valuations)", not bad, "_check_for_modified_notes", test,
-              f"the stamping condition `{ast.unparse(test)}` is wrong for (had_zid_before, changed, dated_today) in {bad}", file=FILE_H, node=test, detail=dict(table={str(k): v for k, v in tt.items()}))
-    # old note looked up by ZID in the previous state of the same page
-    txt = ast.unparse(fn)
-    run.check(rid, "the previous state of a note is found by its ZID", ".get(note.zid" in txt and "note.zid: note for note" in txt, "_check_for_modified_notes", "old_zid_map lookup",
-              "old notes are not matched by ZID", file=FILE_H, node=fn)
-    ev = [s for s in walk_no_nested(fn) if isinstance(s, ast.If) and any("events.append" in ast.unparse(x) for x in s.body)]
-    ok = len(ev) == 1 and isinstance(ev[0].test, ast.Name) and "ModifiedZorgNotesEvent" in ast.unparse(ev[0])
-    run.check(rid, "the modify-date event is queued iff some note was stamped", ok, "_check_for_modified_notes", ev[0].test if ev else "no event", "ModifiedZorgNotesEvent is not queued exactly when notes were stamped", file=FILE_H, node=fn)
+    def meth(I, recv, name, args, kwargs, st, node):
+        if recv.cls.startswith("ext:"):
+            return [(Term(recv.cls[4:] + "." + name, tuple(fz(I, a, st) for a in args)), st)]
+        return None
+
+    def tm(I, recv, name, args, kwargs, st, node):
+        if name == "strftime" and args and isinstance(args[0], str):
+            return [(strftime_shape(args[0]), st)]
+        return None
+
+    I = Interp(model, probes={"method:*": meth, "call:*": call_any, "method:term": tm}, max_states=4000)
+    Q = f"{H}._check_for_modified_notes"
+    fq = model.func(Q)
+    TODAY = Term("datetime.date.today", ())
+    OLD, CREATED = Term("marker:OTHER_DAY", ()), Term("marker:CREATE_DAY", ())
+    D6 = tuple(CharSet(frozenset("0123456789")) for _ in range(6))
+    n = 0
+    for stamped_before in (False, True):
+        for has_old in (False, True):
+            for changed in (False, True):
+                for dated in (False, True):
+                    st = State()
+
+                    def N(body, md, zid, omd=None):
+                        return st.alloc(HObj("obj", cls="zorg.domain.models._page.Note", fields=dict(
+                            body=body, zid=zid, modify_date=md, create_date=CREATED, todo_payload=None, line_no=3, file_path=None, block=None,
+                            projects=st.alloc(HObj("list")), areas=st.alloc(HObj("list")), contexts=st.alloc(HObj("list")), people=st.alloc(HObj("list")),
+                            links=st.alloc(HObj("list")), properties=st.alloc(HObj("dict")))))
+
+                    rest = "240101#00 text  with   blanks\n  second line"
+                    pre = "240105 " if stamped_before else ""
+                    new_body = pre + (rest.replace("text", "edited") if changed else rest)
+                    old_md = OLD if stamped_before else CREATED
+                    note = N(new_body, TODAY if dated else old_md, "240101#00")
+                    old = N(pre + rest, old_md, "240101#00" if has_old else "240101#99")
+                    ctrl, ctrl_old = N("240101#01 control", CREATED, "240101#01"), N("240101#01 control", CREATED, "240101#01")
+                    page = st.alloc(HObj("obj", cls="zorg.domain.models._page.Page", fields=dict(notes=st.alloc(HObj("list", items=[note, ctrl])), events=st.alloc(HObj("list")), path=Opaque("path:PAGE"))))
+                    oldp = st.alloc(HObj("obj", cls="zorg.domain.models._page.Page", fields=dict(notes=st.alloc(HObj("list", items=[old, ctrl_old])), events=st.alloc(HObj("list")), path=Opaque("path:PAGE"))))
+                    label = f"had_zid_before={has_old}, changed={changed}, dated_today={dated}, stamped_before={stamped_before}"
+                    try:
+                        res = I.run_function(Q, [Opaque("path:ZDIR"), page, oldp], st=st)
+                    except Exception as e:
+                        run.undecided(rid, "_check_for_modified_notes", f"cannot evaluate abstractly: {type(e).__name__}: {e}")
+                        return
+                    want = has_old and changed and not dated
+                    for v, s in res:
+                        n += 1
+                        if isinstance(v, Raised) or s.imprecise:
+                            run.undecided(rid, "_check_for_modified_notes", f"{label}: " + (f"raises {v.exc}" if isinstance(v, Raised) else "; ".join(s.imprecise[:2])))
+                            continue
+                        f = s.obj(note).fields
+                        stamped = f["modify_date"] == TODAY and not dated
+                        body_changed = f["body"] != new_body
+                        run.check(rid, f"stamped iff had the ZID before, differs and is not dated today [{label}]", stamped == want and body_changed == want, "_check_for_modified_notes",
+                                  f"{label}: stamped={stamped} body rewritten={body_changed}",
+                                  f"with {label} the note is {'stamped' if stamped else 'not stamped'} and its body is {'rewritten' if body_changed else 'left alone'}; it should be "
+                                  f"{'stamped' if want else 'left alone'} (a note is stamped exactly when the page had a note with that ZID, the note differs from it and does not carry today's date)",
+                                  file=FILE_H, node=fq.node)
+                        cf = s.obj(ctrl).fields
+                        run.check(rid, f"an unedited neighbour is never stamped [{label}]", cf["modify_date"] == CREATED and cf["body"] == "240101#01 control", "_check_for_modified_notes",
+                                  f"{label}: control note changed", "a note that was not edited is stamped / rewritten together with its neighbour", file=FILE_H, node=fq.node)
+                        evs = s.obj(s.obj(page).fields["events"]).items
+                        run.check(rid, f"the modify-date event is queued iff a note was stamped [{label}]", (len(evs) == 1) == want and len(evs) <= 1, "_check_for_modified_notes",
+                                  f"{label}: {len(evs)} events", f"with {label}, {len(evs)} events are queued (expected {1 if want else 0}): the file is not updated to match the index, or rewritten needlessly",
+                                  file=FILE_H, node=fq.node)
+                        if want and stamped:
+                            exp_rest = rest.replace("text", "edited")
+                            got = f["body"]
+                            ok = isinstance(got, SeqStr) and tuple(got.parts[:6]) == D6 and "".join(p if isinstance(p, str) else "?" for p in got.parts[6:]) == " " + exp_rest
+                            run.check("C11.R6", f"the re-stamped body is the new date, one blank, and the note's text with its old stamp removed [{'stamped before' if stamped_before else 'first stamp'}]", ok,
+                                      "_check_for_modified_notes", f"stamped_before={stamped_before}: body {got!r}"[:200],
+                                      f"the stamped body becomes {got!r}; expected YYMMDD + ' ' + {exp_rest!r}: the indexed body no longer equals the file (runs of blanks / line breaks collapse, "
+                                      "or a word that is not the old stamp is dropped), so the note is stamped again whenever anything else on the page changes", file=FILE_H, node=fq.node)
+                            if evs:
+                                ev = s.obj(evs[0]) if isinstance(evs[0], Ref) else None
+                                notes_f = [x for x in (ev.fields.values() if ev else []) if isinstance(x, Ref) and s.obj(x).kind == "list"]
+                                in_ev = [it for x in notes_f for it in s.obj(x).items]
+                                run.check(rid, "the event names exactly the stamped notes", in_ev == [note], "_check_for_modified_notes", f"event notes {len(in_ev)}",
+                                          "the queued event does not list exactly the stamped note(s)", file=FILE_H, node=fq.node)
+    run.floor("stamp-table evaluations", n, 16)
 
 
 def eq_fields(run: Run, model: PyModel, rid: str) -> None:
